@@ -74,7 +74,7 @@ def run(ctx):
     kinds = spatial if ctx.tier == 'thorough' else [k for k in spatial if vdim(k) <= 8]
     roots, meta = build_roots(kinds)
     if ctx.elem == 'i32':   # integer twin pass: the ring-only functions (the others need T: Real)
-        roots = [r for r in roots if meta[r.name]['kind'] in ('dot', 'distance_squared', 'magnitude_squared', 'cross', 'reflected') and 'u32' not in r.name]
+        roots = [r for r in roots if meta[r.name]['kind'] in ('dot', 'distance_squared', 'magnitude_squared', 'cross', 'reflected', 'homog', 'ishom', 'face_forward') and 'u32' not in r.name]
     sc = ctx.scan(roots, feats)
     if sc.compile_error: return
     done = 0
